@@ -2275,7 +2275,15 @@ impl UnimplementedPathAttribute {
     {
         let len = self.value().len();
         // We did not recognize this attribute, so we set the Partial flag.
-        let flags = self.flags() | Flags::PARTIAL;
+        // The width of the length field follows the size of the value, as
+        // compose_len() assumes and as Attribute::compose_header() does, not
+        // the Extended Length flag the attribute happened to be received
+        // with.
+        let flags = if len > 255 {
+            Flags(self.flags().0 | Flags::PARTIAL | Flags::EXTENDED_LEN)
+        } else {
+            Flags((self.flags().0 | Flags::PARTIAL) & !Flags::EXTENDED_LEN)
+        };
         target.append_slice(
             &[flags.into(), self.type_code()]
         )?;
